@@ -674,7 +674,7 @@ orc_neon_load_fourvec_aligned (OrcCompiler *compiler, OrcVariable *var, int upda
 {
   orc_uint32 code;
 
-  ORC_ASM_CODE(compiler,"  vld1.64 { %s, %s, %s, %s }, [%s,:256]%s\n",
+  ORC_ASM_CODE(compiler,"  vld1.64 { %s, %s, %s, %s }, [%s,:64]%s\n",
       orc_neon_reg_name (var->alloc),
       orc_neon_reg_name (var->alloc + 1),
       orc_neon_reg_name (var->alloc + 2),
@@ -1201,7 +1201,7 @@ neon_rule_loadupdb (OrcCompiler *compiler, void *user, OrcInstruction *insn)
     if (size >= 8) {
       if (src->is_aligned) {
         if (size == 32) {
-          ORC_ASM_CODE(compiler,"  vld1.64 { %s, %s, %s, %s }, [%s,:256]\n",
+          ORC_ASM_CODE(compiler,"  vld1.64 { %s, %s, %s, %s }, [%s,:64]\n",
               orc_neon_reg_name (dest->alloc),
               orc_neon_reg_name (dest->alloc + 1),
               orc_neon_reg_name (dest->alloc + 2),
@@ -1539,7 +1539,7 @@ neon_rule_loadX (OrcCompiler *compiler, void *user, OrcInstruction *insn)
     if (size >= 8) {
       if (is_aligned) {
         if (size == 32) {
-          ORC_ASM_CODE(compiler,"  vld1.64 { %s, %s, %s, %s }, [%s,:256]%s\n",
+          ORC_ASM_CODE(compiler,"  vld1.64 { %s, %s, %s, %s }, [%s,:64]%s\n",
               orc_neon_reg_name (dest->alloc),
               orc_neon_reg_name (dest->alloc + 1),
               orc_neon_reg_name (dest->alloc + 2),
@@ -1719,7 +1719,7 @@ neon_rule_storeX (OrcCompiler *compiler, void *user, OrcInstruction *insn)
     if (size >= 8) {
       if (dest->is_aligned) {
         if (size == 32) {
-          ORC_ASM_CODE(compiler,"  vst1.64 { %s, %s, %s, %s }, [%s,:256]%s\n",
+          ORC_ASM_CODE(compiler,"  vst1.64 { %s, %s, %s, %s }, [%s,:64]%s\n",
               orc_neon_reg_name (src->alloc),
               orc_neon_reg_name (src->alloc + 1),
               orc_neon_reg_name (src->alloc + 2),
